@@ -33,7 +33,7 @@ class NotGenerated(Exception):
 
 def leaves_of(tree, out=None):
     out = [] if out is None else out
-    if tree[0] in ("var", "local", "reg"):
+    if tree[0] in ("var", "local", "reg", "hash"):
         out.append(tree)
     elif tree[0] == "bin":
         leaves_of(tree[2], out)
@@ -55,11 +55,15 @@ def word(v, n):
     return list((v % (1 << (8 * n))).to_bytes(n, "little"))
 
 
-def statement(tree, dst, use_kernel=False):
-    """dst: ("var", fmt) | ("local", fmt) | ("reg", kind).  Returns dict(built, ast, leaves, dst, n,
-    inputs=[(offset, size, signed)] in leaf order) or raises NotGenerated."""
+def statement(tree, dst, use_kernel=False, scope=None):
+    """dst: ("var", fmt) | ("local", fmt) | ("reg", kind) | ("hash", fmt).  Leaves may also be ("hash", fmt): a
+    hash-map variable (its value is looked up with a helper call).  scope: None, or the name of a temporary
+    ("tmp", "stmp", "wtmp") inside whose `with` block the statement is placed (the temporary then occupies a
+    register, usually r0).  Returns dict(built, ast, leaves, dst, n, inputs=[(offset, size, signed)] in leaf order)
+    or raises NotGenerated."""
     from ebpfcat.xdp import XDP, XDPExitCode
     from ebpfcat.arraymap import ArrayMap
+    from ebpfcat.hashmap import HashMap
     from ebpfcat.ebpf import LocalVar
 
     leaves = leaves_of(tree)
@@ -69,9 +73,14 @@ def statement(tree, dst, use_kernel=False):
     ns = dict(license="GPL", m=m)
     slot = {}
     regno = {}
+    hm = HashMap() if dst[0] == "hash" or any(lf[0] == "hash" for lf in leaves) else None
+    if hm is not None:
+        ns["hm"] = hm
     for i, lf in enumerate(leaves):
         slot[id(lf)] = i
-        if lf[0] == "reg":
+        if lf[0] == "hash":
+            ns[f"in{i}"] = hm.globalVar(lf[1])
+        elif lf[0] == "reg":
             ns[f"in{i}"] = m.globalVar(REG_SRC_FMT[lf[1]])
             regno[i] = OPERAND_REGS[len(regno)]
         else:
@@ -80,6 +89,9 @@ def statement(tree, dst, use_kernel=False):
                 ns[f"loc{i}"] = LocalVar(lf[1])
     if dst[0] == "reg":
         ns["out"] = m.globalVar("Q")
+    elif dst[0] == "hash":
+        ns["out"] = hm.globalVar(dst[1])
+        ns["pad"] = m.globalVar("Q")            # the array map must not be empty
     else:
         ns["out"] = m.globalVar(dst[1])
         if dst[0] == "local":
@@ -87,7 +99,7 @@ def statement(tree, dst, use_kernel=False):
     n = 8 * 2 ** depth_of(tree) + 1
 
     def expr(self, t):
-        if t[0] == "var":
+        if t[0] in ("var", "hash"):
             return getattr(self, f"in{slot[id(t)]}")
         if t[0] == "local":
             return getattr(self, f"loc{slot[id(t)]}")
@@ -107,10 +119,19 @@ def statement(tree, dst, use_kernel=False):
                 setattr(self, f"loc{i}", getattr(self, f"in{i}"))
             elif lf[0] == "reg":
                 getattr(self, lf[1])[regno[i]] = getattr(self, f"in{i}")
+        if scope is None:
+            body(self)
+        else:
+            with getattr(self, scope):
+                setattr(self, scope, 1)
+                body(self)
+        self.exit(XDPExitCode.PASS)
+
+    def body(self):
         e = expr(self, tree)
         if e is None or isinstance(e, int):
             raise NotGenerated(f"expression evaluated to {e!r} while building")
-        if dst[0] == "var":
+        if dst[0] in ("var", "hash"):
             self.out = e
         elif dst[0] == "local":
             self.lout = e
@@ -118,7 +139,6 @@ def statement(tree, dst, use_kernel=False):
         else:
             getattr(self, dst[1])[DST_REG] = e
             self.out = self.r[DST_REG]
-        self.exit(XDPExitCode.PASS)
     ns["program"] = program
     cls = type("Stmt", (XDP,), ns)
     try:
@@ -129,7 +149,13 @@ def statement(tree, dst, use_kernel=False):
         raise NotGenerated(f"{type(ex).__name__}: {ex}")
     inst = b.inst
 
+    arrfd = next(j + 1 for j, mm in enumerate(b.maps) if mm["type"] == "array")
+    hfd = next((j + 1 for j, mm in enumerate(b.maps) if mm["type"] == "hash"), 0)
+    keyof = lambda name: type(inst).__dict__[name].count
+
     def ast(t):
+        if t[0] == "hash":
+            return dict(k="var", fmt=t[1], fd=hfd, off=keyof(f"in{slot[id(t)]}"))
         if t[0] in ("var", "local"):
             return dict(k="var", fmt=t[1], fd=1, off=inst.__dict__[f"in{slot[id(t)]}"])
         if t[0] == "reg":
@@ -141,22 +167,41 @@ def statement(tree, dst, use_kernel=False):
         return dict(k="bin", op=t[1], l=ast(t[2]), r=ast(t[3]))
 
     leafrecs, inputs = [], []
+    if arrfd != 1:
+        raise NotGenerated("the array map is expected to be map 1")
     for i, lf in enumerate(leaves):
         fmt = REG_SRC_FMT[lf[1]] if lf[0] == "reg" else lf[1]
+        if lf[0] == "hash":
+            key = keyof(f"in{i}")
+            leafrecs.append(dict(fd=hfd, off=key, len=FMT_SIZE[fmt], key=[key]))
+            inputs.append((("hash", key), FMT_SIZE[fmt], fmt.islower()))
+            continue
         off = inst.__dict__[f"in{i}"]
         leafrecs.append(dict(fd=1, off=off, len=FMT_SIZE[fmt]))
         inputs.append((off, FMT_SIZE[fmt], fmt.islower()))
     dsize = (4 if dst[1] in ("w", "sw") else 8) if dst[0] == "reg" else FMT_SIZE[dst[1]]
-    return dict(built=b, ast=ast(tree), leaves=leafrecs, n=n, inputs=inputs,
-                dst=dict(fd=1, off=inst.__dict__["out"], size=dsize), mapsize=b.maps[0]["vs"])
+    if dst[0] == "hash":
+        drec = dict(fd=hfd, off=0, size=dsize, key=[keyof("out")])
+    else:
+        drec = dict(fd=1, off=inst.__dict__["out"], size=dsize)
+    from ebpfcat.hashmap import HashGlobalVarDesc
+    hashkeys = [v.count for v in ns.values() if isinstance(v, HashGlobalVarDesc)]
+    return dict(built=b, ast=ast(tree), leaves=leafrecs, n=n, inputs=inputs, dst=drec,
+                mapsize=b.maps[0]["vs"], hfd=hfd, hashkeys=sorted(set(hashkeys)))
 
 
 def case(st, values):
     """a Codegen.tla case: `values` = one integer per leaf (taken modulo the leaf's size)"""
     buf = bytearray(st["mapsize"])
+    hv = {k: bytes(8) for k in st.get("hashkeys", ())}       # every hash variable exists (as after load())
     for (off, size, _), v in zip(st["inputs"], values):
-        buf[off:off + size] = bytes(word(v, size))
-    c = progs.case(st["built"], arr={1: bytes(buf)})
+        if isinstance(off, tuple):
+            # the 8-byte entry of a hash variable: its value in the low bytes, the rest is not the variable's
+            hv[off[1]] = bytes(word(v, size)) + bytes([0xA5] * (8 - size))
+        else:
+            buf[off:off + size] = bytes(word(v, size))
+    c = progs.case(st["built"], arr={1: bytes(buf)},
+                   hashes=[(st["hfd"], bytes([k]), v) for k, v in sorted(hv.items())])
     c.update(ast=st["ast"], leaves=st["leaves"], n=st["n"], dst=st["dst"])
     return c
 
